@@ -324,15 +324,15 @@ def _run_modify(ctx, base, dz, dZ, dn, dc, method, edges, cosmo):
             e0 = SArr.fresh(ctx, "edges0", (m0,), "f")
             t = bv("t")
             ctx.assume(forall([t], z3.Implies(z3.And(t >= 0, t + 1 < m0.t), e0._elem(t) < e0._elem(t + 1))), "pre:valid original configuration")
-            orig = expect_no_exception(ctx, call(BC.BinningConfig.create, edges=e0, closed="right"), name + "/setup")
+            orig = expect_no_exception(ctx, call(BC.BinningConfig.create, edges=e0, closed="left"), name + "/setup")
         else:
             orig = expect_no_exception(ctx, call(BC.BinningConfig.create, zmin=zmin, zmax=zmax, num_bins=nb, method=base,
-                                                 closed="right"), name + "/setup")
+                                                 closed="left"), name + "/setup")
         snapshot = (orig.binning, orig.binning.edges.copy(), orig.method, orig.binning.closed)
         NS = O.NotSet
         d = dict(zmin=ctx.fresh_real("zmin2") if dz else NS, zmax=ctx.fresh_real("zmax2") if dZ else NS,
                  num_bins=ctx.fresh_int("num_bins2", lo=1) if dn else NS, method=method if method else NS,
-                 closed="left" if dc else NS)
+                 closed="right" if dc else NS)
         if edges:
             m2 = ctx.fresh_int("num_edges2", lo=2, size=True)
             e2 = SArr.fresh(ctx, "edges2", (m2,), "f")
@@ -344,9 +344,9 @@ def _run_modify(ctx, base, dz, dZ, dn, dc, method, edges, cosmo):
         got = call(orig.modify, **d)
         # merged parameters of the statement: the original's own parameters overridden by the given ones
         if base == "custom":
-            merged = dict(zmin=None, zmax=None, num_bins=None, method="custom", edges=e0, closed="right")
+            merged = dict(zmin=None, zmax=None, num_bins=None, method="custom", edges=e0, closed="left")
         else:
-            merged = dict(zmin=zmin, zmax=zmax, num_bins=nb, method=base, edges=None, closed="right")
+            merged = dict(zmin=zmin, zmax=zmax, num_bins=nb, method=base, edges=None, closed="left")
         for k in ("zmin", "zmax", "num_bins", "method", "edges", "closed"):
             if d[k] is not NS:
                 merged[k] = d[k]
